@@ -3,7 +3,7 @@ From DV Require Export Handshake.
 Local Open Scope Z_scope.
 
 (* a token as a connection presents it *)
-Inductive tokref := RInv (inv : N) | RPeer (p : peer).
+Inductive tokref := RInv (inv : N) | RPeer (p : peer) | ROwn.
 Inductive pmop :=
 | OCreate (inv : N)                   (* create_invite; inv = rank of the invitation in the scenario *)
 | OAccept (b : invite_bytes)          (* accept_invite *)
@@ -32,7 +32,7 @@ Definition obs_handshake (x : result * list effect) : list Z :=
 
 (* ---------------------------------------------------------------- invitations *)
 Definition tok_of_ref (m : pm) (tr : tokref) : token :=
-  match tr with RInv inv => TkInvite inv | RPeer p => token_of (pm_secret m) (p_pub p) end.
+  match tr with RInv inv => TkInvite inv | RPeer p => token_of (pm_secret m) (p_pub p) | ROwn => TkOwn end.
 Definition lookup_obs (o : option ttype) : Z * Z :=
   match o with
   | None => (0, 0)
@@ -61,19 +61,14 @@ Fixpoint run_ops_with (consume : pm -> ttype -> peer -> option pm) (m : pm) (ops
   end.
 Definition run_ops := run_ops_with invite_accepted.
 Definition init_pm (app : N) (me : secret) (me_key : key) : pm :=
-  {| pm_app := app; pm_secret := me; pm_tokens := [(token_of me (s_pub me), TAllowed me_key)] |}.
+  {| pm_app := app; pm_secret := me; pm_tokens := [(TkOwn, TAllowed me_key)] |}.
 
 (* ---------------------------------------------------------------- tokens *)
-Fixpoint index_of (t : token) (l : list token) (i : nat) : option nat :=
-  match l with [] => None | x :: r => if token_eqb x t then Some i else index_of t r (S i) end.
-(* rank of first occurrence: the harness renames the 7-byte values the same way *)
-Fixpoint canon (seen : list token) (l : list token) : list Z :=
-  match l with
+(* which of the computed tokens are equal: for every probe, one bit per later probe *)
+Fixpoint eq_matrix (ts : list token) : list Z :=
+  match ts with
   | [] => []
-  | t :: r => match index_of t seen 0 with
-              | Some i => Z.of_nat i :: canon seen r
-              | None => Z.of_nat (length seen) :: canon (seen ++ [t]) r
-              end
+  | t :: r => map (fun u => zb (token_eqb t u)) r ++ eq_matrix r
   end.
 Definition probe_token (secs : list secret) (p : nat * nat) : option token :=
   match nth_error secs (fst p), nth_error secs (snd p) with
@@ -91,7 +86,7 @@ Definition run_C19 (c : c19case) : list Z :=
   match c with
   | CHandshake ch lk t r ev => obs_handshake (init_connection ch lk t r ev)
   | CInvites app me mk ops => run_ops (init_pm app me mk) ops
-  | CTokens secs probes => match all_some (map (probe_token secs) probes) with Some ts => canon [] ts | None => [] end
+  | CTokens secs probes => match all_some (map (probe_token secs) probes) with Some ts => eq_matrix ts | None => [] end
   end.
 
 (* ================================================================ the property's own oracle *)
@@ -148,9 +143,9 @@ Definition op_ok (app : N) (seen : list N) (op : pmop) (a b : Z) : bool :=
       if Z.eqb a 1 then match bs with InviteFor _ app' _ => N.eqb app' app | Garbage => false end else true
   | OLookup tr k =>
       (if Z.eqb a 1 then Z.eqb b (zn k) else true) &&                       (* an allowed-peer entry only for the claimed key *)
-      match tr with RInv inv => if mem_n inv seen then true else Z.eqb a 0 | RPeer _ => true end
+      match tr with RInv inv => if mem_n inv seen then true else Z.eqb a 0 | _ => true end
   | OConsume tr p =>
-      match tr with RInv inv => if mem_n inv seen then true else Z.eqb a 0 && Z.eqb b 0 | RPeer _ => true end
+      match tr with RInv inv => if mem_n inv seen then true else Z.eqb a 0 && Z.eqb b 0 | _ => true end
   end.
 Definition seen_after (seen : list N) (op : pmop) (a : Z) : list N :=
   match op with
@@ -197,15 +192,22 @@ Definition pair_eqb (x y : option (N * N)) : bool :=
   | Some (a, b), Some (c, d) => N.eqb a c && N.eqb b d
   | _, _ => false
   end.
-Definition spec_tokens (secs : list secret) (probes : list (nat * nat)) (obs : list Z) : bool :=
-  Nat.eqb (length obs) (length probes) &&
-  let po := combine probes obs in
-  forallb (fun x => forallb (fun y =>
-      let '(p, o) := x in let '(q, o') := y in
-      (* both sides of one pair *)
-      (if Nat.eqb (fst p) (snd q) && Nat.eqb (snd p) (fst q) then Z.eqb o o' else true) &&
-      (* different pairs of public keys *)
-      (if pair_eqb (pair_of secs p) (pair_of secs q) then true else negb (Z.eqb o o'))) po) po.
+Definition probe_rel (secs : list secret) (p q : nat * nat) (bit : Z) : bool :=
+  (* both sides of one pair: the same token *)
+  (if Nat.eqb (fst p) (snd q) && Nat.eqb (snd p) (fst q) then Z.eqb bit 1 else true) &&
+  (* different pairs of public keys: different tokens *)
+  (if pair_eqb (pair_of secs p) (pair_of secs q) then true else Z.eqb bit 0).
+Fixpoint row_ok (secs : list secret) (p : nat * nat) (qs : list (nat * nat)) (bits : list Z) : bool :=
+  match qs, bits with
+  | [], [] => true
+  | q :: qs', b :: bits' => probe_rel secs p q b && row_ok secs p qs' bits'
+  | _, _ => false
+  end.
+Fixpoint spec_tokens (secs : list secret) (probes : list (nat * nat)) (obs : list Z) : bool :=
+  match probes with
+  | [] => is_nil_z obs
+  | p :: r => row_ok secs p r (firstn (length r) obs) && spec_tokens secs r (skipn (length r) obs)
+  end.
 
 Definition spec_C19 (c : c19case) (obs : list Z) : bool :=
   match c with
